@@ -174,6 +174,9 @@ func (p *Path) formatValue(verb byte, v Value, flags string) (Str, bool) {
 				}
 				return StrC("<" + nat.Kind + ">"), true
 			}
+			if pp := typePkgPath(ifc.T); strings.Contains(pp, "/protobuf/") || strings.HasPrefix(pp, "google.golang.org/protobuf") {
+				return Str{C: "<protobuf message>", Poison: true}, true // reflection-driven text rendering is outside the engine
+			}
 			if m := p.findMethod(ifc.T, "Error"); m != nil {
 				r := p.callFn(m, []Value{ifc.V}, nil, nil)
 				return r.(Str), true
@@ -1325,4 +1328,9 @@ func init() {
 		}
 		return s
 	})
+}
+
+func init() {
+	reg("sync/atomic.LoadPointer", func(p *Path, fn *ssa.Function, a []Value) Value { return *(a[0].(*Value)) })
+	reg("sync/atomic.StorePointer", func(p *Path, fn *ssa.Function, a []Value) Value { *(a[0].(*Value)) = a[1]; return nil })
 }
